@@ -68,7 +68,7 @@ def base_program(rng, force=None):
 
 def run(check):
     n = check.pick(120, 1200)
-    check.rule = ("one prepared workflow executed N times: sequentially and overlapped (N in {2,4,8,16,32}), with distinct inputs whose unique tag flows through every step "
+    check.rule = ("(history) one step registry used for workflow X, another workflow Y (handler-less step, same sub-workflow file name with other contents, refused, arbitrary) and X again: both runs of X return the same; one prepared workflow executed N times: sequentially and overlapped (N in {2,4,8,16,32}), with distinct inputs whose unique tag flows through every step "
                   "to the output; per-tag outcome scripts (some runs fail on purpose, some inputs make an expression fail at run time, some loop items end their sub-run with an error), one run of an overlapped group cancelled mid-way, re-runs after failed and cancelled "
                   "runs, and two workflows prepared from the same text used alternately; oracles: every run's result equals the reference for *its* input (isolated "
                   "first-run semantics), a one-of whose alternatives are produced in a fixed order chooses the same alternative in every run, every value seen at the plugin boundary carries exactly one run's tag, a cancelled sibling perturbs nobody; "
@@ -164,11 +164,80 @@ def run(check):
         case = {"id": "c14-p%04d" % i, "mode": "papi", "files": prog.files(), "scripts": scripts, "runs": [{"input": inp}], "extra": {"workers": rng.choice([2, 3, 4]), "iterations": 2, "share_prepared": False}}
         papi.append(case)
         metas[case["id"]] = (prog, [ref.RefSem(prog, scripts, ref.normalise_input(prog.input_schema, inp))], shape, 0, "two-preparations", None, [])
+    # one step registry used for workflow X, then for an unrelated workflow Y, then for X again (each prepared and run): the two
+    # runs of X return the same, whatever Y was - a workflow with a step that has no cancellation handler, a tree whose loop names
+    # the same sub-workflow file with other contents, a workflow that is refused
+    from ..model import Step
+    hist = []
+    for k in range(check.pick(24, 120)):
+        rng = random.Random(derive_seed(check.seed, "c14-hist", k))
+        kind = k % 4
+        scripts = {}
+        if kind == 0:
+            # X: a step that is stopped before it starts (stop_if delivered); Y: a step without cancellation handler
+            sx = gen.plugin_step("X", gen.tagref("S2"), stop_if=Expr(Ref("S", "outputs", "success", "tag")))
+            px = Program([gen.plugin_step("S", Expr(In("tag"))), gen.plugin_step("S2", gen.tagref("S")), sx], {"success": {"x": gen.tagref("X")}, "stopped": {"r": Expr(Ref("X", "closed", "result")), "s2": gen.tagref("S2")}}, gen.BASE_INPUT)
+            h = gen.plugin_step("h", Expr(In("tag")), schema="nocancel")
+            py = Program([h], {"success": {"h": gen.tagref("h")}}, gen.BASE_INPUT)
+            scripts = {"h": {"schema": "nocancel"}}
+            what = "stop_if workflow / handler-less step in between"
+        elif kind == 1:
+            def looptree(nsub, err):
+                sub = gen.sub_program("sub.yaml", nsub, with_error_output=err)
+                return Program([Step("loop", "foreach", sub=sub, items=Expr(In("items")), parallelism=rng.choice([1, 2]))], {"success": {"d": Expr(Ref("loop", "outputs", "success", "data"))}}, gen.BASE_INPUT)
+            px, py = looptree(1, False), looptree(2, True)
+            what = "loop over sub.yaml / other sub.yaml in between"
+        elif kind == 2:
+            shape, steps, outs = base_program(rng)
+            px = Program(steps, outs, gen.BASE_INPUT)
+            bad = gen.plugin_step("b", Expr(In("tag")))
+            bad.fields["input"]["n"] = "notanint"
+            py = Program([bad], {"success": {"b": gen.tagref("b")}}, gen.BASE_INPUT)
+            what = "%s / refused workflow in between" % shape
+        else:
+            shape, steps, outs = base_program(rng)
+            px = Program(steps, outs, gen.BASE_INPUT)
+            shape2, steps2, outs2 = base_program(rng)
+            py = Program(steps2, outs2, gen.BASE_INPUT)
+            what = "%s / %s in between" % (shape, shape2)
+        for pr in (px, py):
+            for src, sc in gen.make_scripts(pr.steps, {}).items():
+                scripts.setdefault(src, sc)
+        inp = {"tag": "H%d" % k, "n": k + 1, "items": [{"tag": "H%d-i0" % k}, {"tag": "H%d-i1" % k}]}
+        seq = [{"files": px.files(), "input": inp}, {"files": py.files(), "input": inp}, {"files": px.files(), "input": inp}]
+        hist.append(({"id": "c14-h%04d" % k, "mode": "seq", "files": {}, "scripts": scripts, "runs": [], "extra": {"sequence": seq}, "no_events": True}, what))
+        # the other way round as well: what Y returns after X must be what Y returns when it comes first
+        seq2 = [seq[1], seq[0], seq[1]]
+        hist.append(({"id": "c14-h%04dr" % k, "mode": "seq", "files": {}, "scripts": scripts, "runs": [], "extra": {"sequence": seq2}, "no_events": True}, what + " (reversed)"))
     stats = {"runs_checked": 0, "overlapped_groups": 0, "cancelled_runs": 0, "runs_after_failed_or_cancelled": 0, "max_overlap": 0}
     with harness.Runner() as rn:
         if not rn.hang_oracle_works():
             check.fail_broken("the hang oracle (Go runtime deadlock report) does not fire in this build")
         out = rn.run_cases(items + papi, per_case_timeout=120)
+        hout = rn.run_cases([c for c, _w in hist], per_case_timeout=120)
+    def triple(r):
+        return (r.get("out_id"), ref.denum(r.get("data")), r.get("err_type") if r.get("err") else None)
+    for (case, what), (case_r, _w) in zip(hist[0::2], hist[1::2]):
+        ra, rb = ((hout.get(c["id"], {}).get("result") or {}).get("runs") or [] for c in (case, case_r))
+        if len(ra) == 3 and len(rb) == 3:
+            # X first (ra[0]) vs X after Y (rb[1]); Y first (rb[0]) vs Y after X (ra[1])
+            for label, fresh, later in (("X", ra[0], rb[1]), ("Y", rb[0], ra[1])):
+                if triple(fresh) != triple(later):
+                    check.report("runs@history:result-depends-on-earlier-workflow", "%s: workflow %s returns %r when it is the first one of its step registry and %r after the other workflow was prepared and run (%s)" % (
+                        what, label, triple(fresh), triple(later), (later.get("err") or fresh.get("err") or "")[:200]), {"case": case, "reversed": case_r})
+    for case, what in hist:
+        o = hout.get(case["id"], {})
+        check.count()
+        runs = (o.get("result") or {}).get("runs") or []
+        if "death" in o or len(runs) != 3:
+            check.inconclusive_case(case["id"], str(o.get("death", {}).get("key") or "sequence incomplete"))
+            continue
+        first, again = triple(runs[0]), triple(runs[2])
+        if first != again:
+            check.report("runs@history:result-differs", "workflow prepared and run, then another one, then the first again through one step registry (%s): first %r, again %r (%s)" % (
+                what, first, again, (runs[2].get("err") or runs[0].get("err") or "")[:200]), {"case": case})
+        stats["history_sequences"] = stats.get("history_sequences", 0) + 1
+        check.nontrivial("history|" + what.split(" / ")[1])
     for cid in sorted(out):
         o = out[cid]
         prog, sems, shape, N, mode, cancelled, fails = metas[cid]
